@@ -10,7 +10,8 @@ import OpcuaModel.Gen.SendFacts
 
     cSend k tmo opn   handler registered, request written, `timer := NewTimer(tmo + leniency)`, select entered
                       (opn: inside `open()`, whose deferred `rcvLocker.unlock()` is pending)
-    cSendFail k       `sendAsyncWithTimeout` failed after the registration: the call returns at once
+    cSendFail k       `sendAsyncWithTimeout` failed after the registration: its deferred `popHandler`
+                      releases the slot and the call returns the error at once
     cRecv k           `case msg := <-ch`
     cTimeout k hit    `case <-timer.C`: `popHandler(reqID)`          (needs now ≥ deadline)
     cCancel k hit     `case <-ctx.Done()` / `<-s.disconnected`: `popHandler(reqID)`
@@ -110,7 +111,7 @@ def step? (s : St) : Label → Option St
     else none
   | .cSendFail k =>
     if k < s.n ∧ s.cpc k = .idle then
-      some { s with handlers := upd s.handlers k true, cpc := upd s.cpc k (.finished s.now .sendError), t0 := upd s.t0 k s.now }
+      some { s with cpc := upd s.cpc k (.finished s.now .sendError), t0 := upd s.t0 k s.now, tmo := upd s.tmo k 0 }
     else none
   | .cRecv k =>
     match s.cpc k with
@@ -202,11 +203,10 @@ instance (s : St) : Decidable (Wedged s) := by unfold Wedged; exact inferInstanc
 
 /-- Guard (decidable): an `open()` does not leave its select by timeout or
     cancellation while the dispatcher sits between `popHandler` and
-    `rcvLocker.lock()` for its response; no send fails after the registration. -/
+    `rcvLocker.lock()` for its response. -/
 def Guard (s : St) : Label → Prop
   | .cTimeout k _ => s.dpc ≠ .popped k true
   | .cCancel k _ => s.dpc ≠ .popped k true
-  | .cSendFail _ => False
   | _ => True
 
 instance (s : St) (l : Label) : Decidable (Guard s l) := by
